@@ -247,8 +247,17 @@ def reader_events(stream, validate, quit_, label, parsed, resume, use_handler, *
     old = lg.level
     lg.setLevel(logging.ERROR)
     try:
-        rdr = RTCMReader(stream, validate=validate, quitonerror=quit_, labelmsm=label,
-                         parsed=parsed, errorhandler=handler, **kw)
+        try:
+            rdr = RTCMReader(stream, validate=validate, quitonerror=quit_, labelmsm=label,
+                             parsed=parsed, errorhandler=handler, **kw)
+        except Hang:
+            raise
+        except LIBS as e:                     # the constructor of a socket-backed reader already receives
+            events.append("R:" + libkind(e))
+            return events
+        except Exception as e:  # noqa
+            events.append("X:" + foreignkind(e))
+            return events
         run_reader(rdr, resume, events)
     finally:
         lg.removeHandler(cap)
